@@ -237,3 +237,24 @@ def install(reg):
             raise OutOfSubset("BooleanNetwork(<args>)")
         return Val(TNetObj, T.EmptyBN)
     reg.global_calls["BooleanNetwork"] = bn_ctor
+
+
+TCtxObj = TObj("SymbolicContext")
+ctx_of = z3.Function("ctx_of", TGraph.sort(), TCtxObj.sort())
+TRUSTED["aeon.AsynchronousGraph.symbolic_context"] = "the symbolic context of the graph (opaque)"
+
+
+class GraphModel3(GraphModel2):
+    def method(self, eng, st, v, meth, args, kw, node, recv_expr=None):
+        if meth == "symbolic_context":
+            return Val(TCtxObj, ctx_of(v.t))
+        return super().method(eng, st, v, meth, args, kw, node, recv_expr)
+
+
+_install4 = install
+
+
+def install(reg):
+    _install4(reg)
+    reg.models = [(p, (GraphModel3() if isinstance(m, GraphModel2) else m)) for p, m in reg.models]
+    reg.globals["pint_available"] = lambda eng, st: vbool(z3.Bool("pint_available"))
